@@ -91,7 +91,14 @@ pub fn exec(c: &Conv, op: SdOp, op_index: usize) -> SdRes {
     let sd = &c.sd;
     let r = catch_quiet(|| match op {
         SdOp::Read(b, n) => {
+            // the destination buffers hold hostile old contents: repeated stop-transmission frames (4C 00 00 00 00 61).
+            // What the caller's buffer held before must not matter.
             let mut blocks = vec![Block::new(); n as usize];
+            for b in blocks.iter_mut() {
+                for (i, x) in b.contents.iter_mut().enumerate() {
+                    *x = [0x4C, 0x00, 0x00, 0x00, 0x00, 0x61, 0xFF, 0xFF][i % 8];
+                }
+            }
             match sd.read(&mut blocks, BlockIdx(b)) {
                 Ok(()) => SdRes::Blocks(blocks.iter().map(|x| x.contents).collect()),
                 Err(e) => SdRes::Err(format!("{:?}", e)),
@@ -295,8 +302,11 @@ fn op_alphabet(kind: Kind, tier: &str, with_beyond: bool) -> Vec<SdOp> {
     a.push(SdOp::CardType);
     a.push(SdOp::MarkUninit);
     if with_beyond {
+        // calls the card refuses without any fault: reads and writes beyond its capacity
         a.push(SdOp::Read(cap, 1));
         a.push(SdOp::Read(last, 2));
+        a.push(SdOp::Write(cap, 1));
+        a.push(SdOp::Write(cap + 7, 2));
     }
     a
 }
@@ -812,7 +822,7 @@ pub fn run_c13(tier: &str) -> i32 {
             jobs.push((k, crc, Fault::Garbage { at }));
         }
         // (d) SPI bus error at every transaction index
-        let tstep = if tier == "quick" { 5 } else { 1 };
+        let tstep = 1;
         for txn in (0..t).step_by(tstep) {
             jobs.push((k, crc, Fault::SpiError { txn }));
         }
